@@ -62,7 +62,11 @@ func NewBundleDescriptorFromBundle(b bpv7.Bundle, store *storage.Store) BundleDe
 	descriptor := NewBundleDescriptor(b.ID(), store)
 	descriptor.bndl = &b
 
-	_ = descriptor.Sync()
+	// A descriptor with constraints belongs to an already stored bundle and was loaded from the store right now.
+	// Writing it back would change nothing, but might undo an update made meanwhile, e.g., by a concurrent forwarding.
+	if len(descriptor.Constraints) == 0 {
+		_ = descriptor.Sync()
+	}
 	return descriptor
 }
 
